@@ -486,6 +486,7 @@ func streamReal(data []byte, bufSize, mode, budget int, rng func(int) int) (res 
 var bufSizes = []int{32, 33, 64, 4096}
 
 const overdiscardKey = "stream:writer-fail-overdiscard"
+const chunksLeftKey = "stream:writer-fail-chunks-left"
 
 type stCase struct {
 	data     []byte
@@ -555,10 +556,14 @@ func stRun(c *Ctx, sc stCase, bs, mode, budget int) streamRes {
 	}
 	// the property judged directly on the real code: a clean return must leave the reader exactly at the end of the reply's frame
 	if sc.frameEnd > 0 && res.clean && res.consumed != sc.frameEnd {
-		if budget >= 0 && errors.Is(res.err, errWriter) && res.consumed > sc.frameEnd {
+		switch {
+		case budget >= 0 && errors.Is(res.err, errWriter) && res.consumed > sc.frameEnd:
 			c.failOnce(overdiscardKey, op, fmt.Sprintf("writer failed after %d of the payload bytes; streamTo reports clean=true but consumed %d bytes of a %d-byte frame: %d bytes of the following reply are gone from the connection",
 				len(res.out), res.consumed, sc.frameEnd, res.consumed-sc.frameEnd))
-		} else {
+		case budget >= 0 && errors.Is(res.err, errWriter) && sc.w != nil && sc.w.kind == "chunked":
+			c.failOnce(chunksLeftKey, op, fmt.Sprintf("writer failed after %d bytes inside a chunked string; streamTo reports clean=true but stopped %d bytes before the end of the reply: the remaining chunks stay on the connection and will be read as the next reply",
+				len(res.out), sc.frameEnd-res.consumed))
+		default:
 			c.failOnce("stream:clean-but-misaligned", op, fmt.Sprintf("clean=true but consumed %d bytes, the reply's frame has %d", res.consumed, sc.frameEnd))
 		}
 	}
